@@ -88,6 +88,14 @@ func parseSubnet(phantomSubnet string) (*net.IPNet, error) {
 		return nil, fmt.Errorf("failed to parse %v as subnet", parsedNet)
 	}
 
+	// An IPv4-mapped IPv6 CIDR (::ffff:a.b.c.d/n with n >= 96) names IPv4 addresses. Keep it in its 4-byte
+	// form, which is what the address family filters and the selection arithmetic expect.
+	if v4 := parsedNet.IP.To4(); v4 != nil && len(parsedNet.Mask) == net.IPv6len {
+		if ones, _ := parsedNet.Mask.Size(); ones >= 96 {
+			parsedNet = &net.IPNet{IP: v4, Mask: net.CIDRMask(ones-96, 8*net.IPv4len)}
+		}
+	}
+
 	return parsedNet, nil
 }
 
